@@ -30,6 +30,10 @@ func init() {
 		Run:         runC16,
 		Configs:     []string{"linux/amd64"},
 		Mutants: []Mutant{
+			{Name: "conversions-count-as-free-of-side-effects", File: "analysis/code/code.go", Rule: "R16.6", KeyPart: "go/ast.CallExpr::Args-examined-before-a-no-answer",
+				Old: "\t\tif purity == nil {\n\t\t\treturn true\n\t\t}\n\t\tswitch obj := typeutil.Callee(pass.TypesInfo, expr).(type) {", New: "\t\tif purity == nil {\n\t\t\ttv, ok := pass.TypesInfo.Types[expr.Fun]\n\t\t\treturn !ok || !tv.IsType()\n\t\t}\n\t\tswitch obj := typeutil.Callee(pass.TypesInfo, expr).(type) {"},
+			{Name: "slice-bounds-not-examined", File: "analysis/code/code.go", Rule: "R16.6", KeyPart: "SliceExpr",
+				Old: "\t\treturn MayHaveSideEffects(pass, expr.X, purity) ||\n\t\t\tMayHaveSideEffects(pass, expr.Low, purity) ||", New: "\t\tif expr.Low == nil && expr.High == nil {\n\t\t\treturn false\n\t\t}\n\t\treturn MayHaveSideEffects(pass, expr.X, purity) ||\n\t\t\tMayHaveSideEffects(pass, expr.Low, purity) ||"},
 			{Name: "render-folds-lines", File: "analysis/report/report.go", Rule: "R16.5", KeyPart: "report.Render::printed-source-handed-on-verbatim",
 				Old: "\treturn buf.String()\n}\n\nfunc RenderArgs", New: "\treturn strings.Join(strings.Fields(buf.String()), \" \")\n}\n\nfunc RenderArgs"},
 			{Name: "replacement-text-trimmed", File: "analysis/edit/edit.go", Rule: "R16.5", KeyPart: "edit.ReplaceWithNode::printed-source-handed-on-verbatim",
@@ -484,6 +488,120 @@ func runC16(c *Ctx) {
 		}
 		if n < 5 {
 			c.Undecided("found only %d calls of go/format.Node in the report/edit/code helpers", n)
+		}
+	})
+
+	// R16.6: code.MayHaveSideEffects is the gate in front of every rewrite that
+	// changes how often an operand is evaluated (QF1002/3/5, S1001/9/36, …). It
+	// may answer "no side effects" for a composite expression only after it has
+	// looked at the operands: within one clause of its type switch, no path to
+	// a result other than the constant true may skip an operand that the clause
+	// examines on its other paths (a conversion T(f()) is a CallExpr whose
+	// argument still runs f).
+	c.Rule("R16.6", func() {
+		c.Floor("R16.6", 8)
+		fn := c.Func("analysis/code", "MayHaveSideEffects")
+		if len(fn.Params) < 2 {
+			c.Undecided("MayHaveSideEffects changed its signature")
+		}
+		exprParam := fn.Params[1]
+		n := 0
+		Instrs(fn, false, func(in ssa.Instruction) {
+			ta, ok := in.(*ssa.TypeAssert)
+			if !ok || !ta.CommaOk || ta.X != ssa.Value(exprParam) {
+				return
+			}
+			var tv ssa.Value
+			if refs := ta.Referrers(); refs != nil {
+				for _, r := range *refs {
+					if ex, ok := r.(*ssa.Extract); ok && ex.Index == 0 {
+						tv = ex
+					}
+				}
+			}
+			if tv == nil {
+				return
+			}
+			succ := CondEdges(fn, func(cond ssa.Value) (bool, bool) {
+				ex, ok := cond.(*ssa.Extract)
+				return ok && ex.Tuple == ssa.Value(ta) && ex.Index == 1, true
+			})
+			// loads of the node's fields, and the fields handed to recursive calls
+			fieldLoads := map[string][]ssa.Instruction{}
+			Instrs(fn, false, func(x ssa.Instruction) {
+				ld, ok := x.(*ssa.UnOp)
+				if !ok || ld.Op != token.MUL {
+					return
+				}
+				fa, ok := ld.X.(*ssa.FieldAddr)
+				if !ok || !Derives(fa.X, func(v ssa.Value) bool { return v == tv }) {
+					return
+				}
+				if _, f := FieldOf(fa.X.Type(), fa.Field); f != nil {
+					fieldLoads[f.Name()] = append(fieldLoads[f.Name()], ld)
+				}
+			})
+			examined := map[string]bool{}
+			for _, ci := range Calls(fn, false) {
+				if ci.Common().StaticCallee() != fn || len(ci.Common().Args) < 2 {
+					continue
+				}
+				for name, lds := range fieldLoads {
+					for _, ld := range lds {
+						if Derives(ci.Common().Args[1], func(v ssa.Value) bool { return v == ld.(ssa.Value) }) {
+							examined[name] = true
+						}
+					}
+				}
+			}
+			if len(examined) == 0 {
+				return
+			}
+			for _, r := range Returns(fn) {
+				if inClause, _ := MustPassEdges(fn, r, succ); !inClause || len(succ) == 0 {
+					continue
+				}
+				// the places where a result other than the constant true is decided: the return itself, or, for
+				// `a || b` (a φ of true and b), the end of the predecessor that contributes the non-true value
+				type site struct{ at ssa.Instruction }
+				var sites []ssa.Instruction
+				var expand func(v ssa.Value, at ssa.Instruction, depth int)
+				expand = func(v ssa.Value, at ssa.Instruction, depth int) {
+					if isBoolConst(v, true) {
+						return
+					}
+					if phi, ok := v.(*ssa.Phi); ok && depth < 4 {
+						for i, e := range phi.Edges {
+							pred := phi.Block().Preds[i]
+							expand(e, pred.Instrs[len(pred.Instrs)-1], depth+1)
+						}
+						return
+					}
+					sites = append(sites, at)
+				}
+				expand(ReturnOperand(r, 0), r, 0)
+				for _, name := range SortedKeys(examined) {
+					n++
+					isLoad := func(x ssa.Instruction) bool {
+						for _, ld := range fieldLoads[name] {
+							if ld == x {
+								return true
+							}
+						}
+						return false
+					}
+					okAll, pathStr := true, ""
+					for _, at := range sites {
+						if t, path := PathAvoiding(fn, nil, func(x ssa.Instruction) bool { return x == at }, isLoad, nil); t != nil {
+							okAll, pathStr = false, PathString(fn, path)
+						}
+					}
+					c.Check(FuncKey(fn)+"::"+TypeString(ta.AssertedType)+"::"+name+"-examined-before-a-no-answer", r.Pos(), okAll, "this result can be 'no side effects' although the operand %s of the %s was never looked at on this path; rewrites that duplicate or drop the expression would then change how often its operand is evaluated; path: %s", name, TypeString(ta.AssertedType), pathStr)
+				}
+			}
+		})
+		if n < 8 {
+			c.Undecided("found only %d (clause, operand, result) combinations in MayHaveSideEffects", n)
 		}
 	})
 }
